@@ -566,7 +566,8 @@ Proof.
     destruct (r_hdrs r') as [|a' l'] eqn:Er'.
     + (* the whole run is at or below e *)
       rewrite Et. exists (r' :: t'). split; [reflexivity|]. split; [cbn [rinv]; rewrite Er'; exact Hrt|].
-      intros x. cbn. rewrite Er', Ea. cbn [app]. rewrite Hmt. rewrite <- Ea, in_app_iff. specialize (Hmem x). cbn in Hmem. tauto.
+      intros x. unfold ranges_all. cbn [flat_map]. rewrite !in_app_iff, Er'. fold (ranges_all t') (ranges_all t).
+      rewrite (Hmt x). specialize (Hmem x). cbn in Hmem. tauto.
     + (* part of the run survives: everything after it is untouched *)
       assert (Ha' : e < h_height a') by (apply Hr'; left; reflexivity).
       assert (Hin' : In a' (r_hdrs r)) by (apply Hmem; left; reflexivity).
@@ -574,14 +575,14 @@ Proof.
       pose proof (consec_bounds a l Hc a' Hin') as Hb.
       rewrite (remove_upto_above e _ t Ht ltac:(lia)). exists (r' :: t). split; [reflexivity|]. split.
       * apply (rinv_replace_first r r' t).
-        -- cbn [rinv]. rewrite Ea. exact Hne.
+        -- cbn [rinv]. rewrite Ea. eapply ne_inv_weaken; [|exact Hne]. lia.
         -- rewrite Ea. discriminate.
         -- exact Hok'.
         -- exists g. rewrite Er'. exact Hsp.
-      * intros x. cbn. rewrite Er', Ea. rewrite !in_app_iff. specialize (Hmem x). rewrite Ea in Hmem.
+      * intros x. unfold ranges_all. cbn [flat_map]. rewrite !in_app_iff, Er'. fold (ranges_all t).
         assert (Hxt : In x (ranges_all t) -> e < h_height x).
         { intros Hx. pose proof (ne_inv_lo _ _ Ht x Hx). lia. }
-        unfold ranges_all in *. tauto.
+        specialize (Hmem x). tauto.
 Qed.
 
 Theorem remove_upto_spec e rs :
@@ -594,7 +595,7 @@ Proof.
   - cbn [app]. apply (remove_upto_ne e ns 0 Hns).
   - destruct IH as (rs' & E & Hri & Hm). destruct (range_remove_empty e r Hr) as (r' & Er & Hr').
     exists (r' :: rs'). cbn [app ranges_remove_upto]. rewrite Er, E. split; [reflexivity|]. split; [cbn [rinv]; rewrite Hr'; exact Hri|].
-    intros x. cbn. rewrite Hr', Hr. cbn [app]. apply Hm.
+    intros x. unfold ranges_all. cbn [flat_map app]. rewrite Hr', Hr. cbn [app]. apply Hm.
 Qed.
 
 (** without the invariant: RemoveUpTo never fails and only removes *)
